@@ -7,10 +7,12 @@ import gauss_common as gc
 
 
 def streams(ctx, res):
-    exe = gc.build(ctx)
+    exes = gc.build_all(ctx)
+    exe = exes.get(0)
     if not exe:
         return {}
-    gc.run_mode(ctx, res, exe, "c10")
+    gc.run_all(ctx, res, exes, "c10")
+    out_cov = gc.neg_flagged_coverage(ctx, res, "full-compare:negative")
     gtv = []
     gc.run_mode(ctx, res, exe, "tv", collect=("gtv ", gtv))
     tv = gc.gtv_summary(gtv)
@@ -23,6 +25,8 @@ def streams(ctx, res):
     for md in res.modeldiff:
         ctx.setdefault("failing_inputs", []).append({"kind": "implementation-differs-from-verified-model", **md})
     return {"tv_search": tv,
+            "out_class_dimension": {"lines_in_flagged_cells_with_negative_sample (out_class/index width/depth)": out_cov,
+                                    "poly_set_gaussian_lines_with_negative_sample_from_flagged_cell": gc.poly_coverage(ctx, res)},
             "proved": "decode = full comparison = inverse CDF on tables satisfying tableOK; builder model satisfies tableOK; monotone; prefix; induced mass = barrier differences",
             "computed_not_proved": "total variation between the barrier differences and the discrete Gaussian (tv_search)",
             "derived_parameters": "gpar lines: paramsOK (k = lambda+1+clog2 m exact; (nb-1)/2 >= sigma*sqrt(1+2k*0.693); 2^bits > 2^k (nb-3)) evaluated by the driver on every live object; "
@@ -41,6 +45,12 @@ PROP = {
              "(gstep: recovered step = barrier), each barrier and its neighbours, both ends of every first-level cell and of every second-level cell "
              "under a flagged first-level cell (8-bit index: all; 16-bit: flagged cells, their neighbours and a random sample), random/all-zero/all-ones strings; "
              "index width 8/16, depth 1/2, several (sigma, lambda, m, centre, constructor) incl. seed-dependent ones; "
+             "the same streams for out_class = int32_t (all of the above), int64_t, uint64_t, uint32_t, int16_t, uint16_t x index width x depth (centres 0, -1/2, -1/4, -2/7, -12345.678: "
+             "negative samples; a seed-dependent one), plus by construction both ends of FLAGGED final-level cells whose tabulated value is NEGATIVE and the first/last barrier "
+             "of their lists +-1; the value on the line is the out_class object itself, the specification compares the integer it denotes when read as the signed type of its width "
+             "(Model/Gauss.lean outStore / readOut; the check fails if some out_class x width x depth has no flagged-negative line); "
+             "gpoly: the library's own consumer poly<T,n,nm>::set(gaussian<in_class,T,depth>(sampler, amp)) for T = uint64_t / uint32_t / uint16_t, amp 1/2/3, on the scripted stream kinds of C11 "
+             "plus 'barriers with a negative value, last word +-1': coefficient = amp*invCDF mod p in every modulus; "
              "gtv: total-variation computation over (1) the grid of the statement (sigma 0.3..300, lambda 32..256, centre 0 / 1/2 / -1/4 / 1000.5), each point with "
              "m = 1, 2^10, 2^20 AND two sample budgets that are not powers of two (2^j±1, 10^j, odd multiples of 2^j, odd numbers: 3 … 2^20-1, rotating with the seed), "
              "(2) the same space off the round values (sigma 0.37 … 226, lambda 33/47/100/129/255, centres 1/3, -2/7, 1000.001, -12345.678, 0.499999; double / mpfr(double) / "
@@ -55,7 +65,7 @@ PROP = {
         "scripted nfl::fastrandombytes replaces the PRNG at link time",
     ],
     "assumptions": ["barriers well formed and sorted, nb odd, last barrier starts with `depth` all-ones words, depth <= wp (all checked on the real tables)",
-                    "outputs fit out_class (the constructor prints a WARNING otherwise); harness uses out_class = int32_t",
+                    "outputs fit the signed type of out_class's width (the constructor prints a WARNING only when nb >= 2^(bits-1)); checked on every gtab line (fitsOut); 8-bit out_class not exercised",
                     "the statistical-distance part is computed on a parameter grid, not proved",
                     "ceil(log(m)/log(2)) in double equals ceil(log2 m) (modelled contract of kOf; exact for m <= 2^28)",
                     "OPEN finding F8 (known_findings.json): the mpfr_t-centre constructor keeps only 53 bits of the centre; gtv lines of constructor 2 are reported as KNOWN-FINDING"],
